@@ -3,7 +3,7 @@ from common import *  # noqa: F401,F403
 
 RULE = ("random curves: Bezier, multi-span, repeated interior knots up to multiplicity degree+1, degree 0, polynomial and rational, scalar and "
         "vector points, exact rational data.  Non-trivial: degree >= 2 or an interior knot; distinct = distinct curves."
-        " Also: integer knot vectors handed over as python ints.")
+        " Also: integer knot vectors handed over as python ints, rational Bezier curves of degree 3..5.")
 EXPLANATION = ("L3: for exact results `rf.map deriv` decides D = dC/du on every span from the polynomial coefficients (quotient rule, cross-multiplied); "
                "where the library computes in float64 (spline difference matrix, D18) the values D(u) are compared with the exact derivative at "
                "2*deg+3 interior points of every span of D to relative 1e-9.  L2: polynomial derivatives vs the model's control points.")
@@ -78,6 +78,13 @@ def run(ctx):
         U, P, W = rand_curve(rng, pmax=(2 if rat else 4), nintmax=(1 if rat else 3), weights=("pos" if rat else "none"),
                              force_zero=(i % 7 == 0))
         run_case(ctx, ser(dict(kind="deriv", U=U, P=P, W=W)))
+    for i in range(budget(ctx, 8, 60)):
+        # rational Bezier curves of higher degree (their derivative goes through the Bezier product of degree 2p)
+        pb = 3 + i % 3
+        a = F(rng.randint(-2, 1))
+        b = a + rng.choice([1, 2, F(3, 2)])
+        U = [a] * (pb + 1) + [b] * (pb + 1)
+        run_case(ctx, ser(dict(kind="deriv", U=U, P=rand_points(rng, pb + 1, rng.choice([1, 2])), W=rand_weights(rng, pb + 1, "pos"))))
     for i in range(budget(ctx, 25, 300)):
         # integer knot vectors handed over as python ints (unequal spans: the ratios p/(u_(i+p)-u_i) are not integers)
         U = rand_int_kv(rng, pmax=3, nintmax=3)
